@@ -27,6 +27,9 @@ structure JSt where
   -- C12
   prodMeta : List (Bytes × (List Int × Nat)) := []
   run : Option (Bytes × List Int) := none
+  -- C05 (producer layer): acknowledgement mode and time-out the producer was built with
+  prodAcks : Int := 1
+  prodTimeout : Int := 30000
 
 def applySetup (c : Cluster) (cmds : List (List String)) : Cluster :=
   cmds.foldl (fun c t => (Driver.setup c t).getD c) c
@@ -1073,6 +1076,40 @@ def judgeC05 (ops : List OpRec) : List String :=
                   (⟨tp.1, tp.2.map fun (q : Int × Int × Int) => ⟨q.1, if q.2.1 = 0 then .ok q.2.2 else .error (kindOf q.2.1)⟩⟩ : Model.ProduceConfirm)
               | _ => []
             if op.result == fmtConfirms confirms then s else viol s "C05-confirmations" op s!"returned `{op.result}`, brokers answered `{fmtConfirms confirms}`"
+    | "producer_create" :: _ :: opts =>
+      if op.result != "ok" then s else
+      let acks : Int := ((lastOpt opts "acks").bind (·.toInt?)).getD 1
+      let to : Int := match (lastOpt opts "acktimeout").map (fun (v : String) => v.splitOn ":") with
+        | some [a, b] => match a.toNat?, b.toNat? with
+          | some a, some b => ((a * 1000 + b / 1000000 : Nat) : Int)
+          | _, _ => 30000
+        | _ => 30000
+      { s with prodAcks := acks, prodTimeout := to }
+    | "send_all" :: args =>
+      -- the producer layer: explicit partitions only here (partition choice is C12); every record once, at its
+      -- partition's leader, order kept, one request per broker carrying the producer's own acks and time-out
+      match Replay.parseRecords args with
+      | none => s
+      | some recs =>
+        if recs.any (fun (r : Model.Record) => r.partition < 0) then s else
+        let reqs : List (Bytes × Request) := framesOf op
+        let unknown := recs.any fun (r : Model.Record) => (leaderHost s.cluster r.topic r.partition).isNone
+        if unknown then s else
+        let keys : List (Bytes × Int) := recs.foldl (fun (acc : List (Bytes × Int)) (r : Model.Record) => if acc.contains (r.topic, r.partition) then acc else acc ++ [(r.topic, r.partition)]) []
+        let want : List String := keys.map fun (t, p) =>
+          let rs := (recs.filter fun (r : Model.Record) => r.topic == t && r.partition == p).map fun (r : Model.Record) => kvStr (Model.toOption r.key) (Model.toOption r.value)
+          s!"{toHexTok ((leaderHost s.cluster t p).getD [])}|{toHexTok t}|{p}|{rs}"
+        let got : List String := reqs.flatMap fun (x : Bytes × Request) => match x.2.body with
+          | ReqBody.produce _ _ ts => ts.flatMap fun (tp : Bytes × List (Int × Bytes)) => tp.2.map fun (ps : Int × Bytes) =>
+              s!"{toHexTok x.1}|{toHexTok tp.1}|{ps.1}|{(openSet ps.2).map fun (m : Msg) => kvStr m.key m.value}"
+          | _ => []
+        let ioFault := op.evs.any (fun e => match e with | .io _ _ => true | .connect _ ok => !ok | _ => false)
+        let s := if ioFault || sortBy (· < ·) want == sortBy (· < ·) got then s
+          else viol s "C05-producer-records" op s!"requests carry {sortBy (· < ·) got}, expected {sortBy (· < ·) want}"
+        reqs.foldl (fun (s : JSt) (x : Bytes × Request) => match x.2.body with
+          | ReqBody.produce a t _ => if a == s.prodAcks && t == s.prodTimeout then s
+              else viol s "C05-producer-acks-timeout" op s!"request carries acks {a} timeout {t}; the producer was built with acks {s.prodAcks} timeout {s.prodTimeout}"
+          | _ => s) s
     | _ => s
     { s with cluster := c' }) ({} : JSt)
   s.out
@@ -1565,9 +1602,36 @@ def judgeC15 (ops : List OpRec) : List String :=
       let faulted := op.evs.any (fun e => match e with | .io _ _ => true | .connect _ ok => !ok | _ => false) || !op.notes.isEmpty
       if !faulted && op.result != "ok" && op.result != "err Kafka(3)" then viol s "C15-noack-awaited-reply" op s!"result `{op.result}`" else s
     | _ => s) ({} : JSt)
+  -- a connection on which a reply (or the rest of one) is still outstanding after a time-out must not carry another
+  -- request: whatever is read next on it are bytes that answer the earlier request
+  let stale : List String × List (Bytes × Bytes) := ops.foldl (fun (acc : List String × List (Bytes × Bytes)) (op : OpRec) =>
+    let owner := Replay.ownerOf op.toks
+    let (out, pending) := acc
+    -- objects being created, dropped or moved take their connections with them: forget what was pending
+    let pending := match op.toks with
+      | "client_new" :: _ => pending.filter (·.1 != owner)
+      | "consumer_create" :: _ => pending.filter (·.1 != owner)
+      | "producer_create" :: _ => pending.filter (·.1 != owner)
+      | ["consumer_drop"] => pending.filter (·.1 != owner)
+      | ["consumer_into_client"] => []
+      | ["producer_into_client"] => []
+      | _ => pending
+    let (out, pending) := op.evs.foldl (fun (a : List String × List (Bytes × Bytes)) (e : Ev) =>
+      match e with
+      | .connect h true => (a.1, a.2.filter fun (x : Bytes × Bytes) => x != (owner, h))
+      | .req h _ _ =>
+        if a.2.contains (owner, h) then
+          (a.1 ++ [s!"C15-request-on-connection-with-outstanding-reply | op {op.idx} `{" ".intercalate (op.toks.take 2)}`: a request goes to {toHexTok h} on a connection whose earlier reply was never (completely) read; the next bytes read there answer that earlier request"],
+           a.2.filter fun (x : Bytes × Bytes) => x != (owner, h))
+        else a
+      | _ => a) (out, pending)
+    let late : List (Bytes × Bytes) := op.notes.filterMap fun (n : List String) => match n with
+      | ["late-reply", h] => (fromHex h).map fun (hb : Bytes) => (owner, hb)
+      | _ => none
+    (out, pending ++ late)) ([], [])
   -- a result is never computed from bytes that answer an earlier request: whatever a call returns must be what the
   -- broker answered to *that* call's request — C10's demands on every offset look-up of the history
-  s.out ++ (judgeC10 ops).map fun (l : String) => l.replace "C10-" "C15-foreign-reply-"
+  s.out ++ stale.1 ++ (judgeC10 ops).map fun (l : String) => l.replace "C10-" "C15-foreign-reply-"
 
 /-! ### C18 -/
 
@@ -1603,6 +1667,9 @@ def judgeC13 (ops : List OpRec) : List String :=
         viol s s!"C13-panic-in-{file}" op s!"panicked at {loc}"
       else s
     let s := if op.result == "bigalloc" then viol s "C13-allocation-1GiB" op s!"asked for a single allocation of {(noteOf "alloc-request").getD "?"} bytes" else s
+    let s := match noteOf "request-cap" with
+      | some n => viol s "C13-request-storm" op s!"sent {n} requests in one call and was still going (every retry limit in these histories is below 10)"
+      | none => s
     let s := match noteOf "slow-op" with
       | some ms => viol s "C13-runaway" op s!"took {ms} ms"
       | none => s
